@@ -50,3 +50,29 @@ Print Assumptions C09_searchmoves.
 
 Example C09_example_depth60 : search_depth_of false 60 0 0 = 40.
 Proof. reflexivity. Qed.
+
+(* ---- the text of the go command (Uci::go_command) ----
+   Engine/GoParse.v models the token loop; on commands made of well-formed parameter groups (ponder | infinite |
+   <numeric keyword> <integer> | searchmoves <moves>) parsing applies the groups in turn, the result does not depend on
+   the ORDER of the groups when no keyword is repeated, and a searchmoves list is read back exactly, wherever it stands
+   ("any combination of ... limits").  The model is compared with what the real parser hands to Search on every run. *)
+From CV Require Import Engine.GoParse Engine.GoParseProofs.
+From Coq Require Import Permutation String.
+
+Theorem C09_go_parameter_order_is_irrelevant : forall gs gs' : list group,
+  Permutation gs gs' -> NoDup (map key gs) -> Forall wf gs ->
+  parse_go (flat_map render gs) = parse_go (flat_map render gs').
+Proof. exact go_parameter_order_is_irrelevant. Qed.
+Print Assumptions C09_go_parameter_order_is_irrelevant.
+
+Theorem C09_searchmoves_list_read_back_anywhere : forall (pre post : list group) (ms : list string),
+  Forall wf pre -> Forall wf post -> Forall (fun m => is_move m = true) ms ->
+  ~ In KMoves (map key pre) -> ~ In KMoves (map key post) ->
+  l_searchmoves (parse_go (flat_map render (pre ++ GMoves ms :: post))) = ms.
+Proof. exact searchmoves_anywhere. Qed.
+Print Assumptions C09_searchmoves_list_read_back_anywhere.
+
+Example C09_go_parse_example :
+  let l := parse_go ["searchmoves"; "e7e8q"; "e1d1"; "depth"; "3"; "wtime"; "-5"]%string in
+  l_searchmoves l = ["e7e8q"; "e1d1"]%string /\ l_depth l = 3 /\ l_wtime l = -5.
+Proof. vm_compute. repeat split; reflexivity. Qed.
